@@ -17,6 +17,8 @@ type Edit struct {
 	SyntaxBad  bool // expected to be stopped while loading
 	BackendBad bool // expected to be stopped by the backend's constant typing
 	GraphEdit  bool // edits the include graph: applied once per program, target = which file starts the cycle
+	NoR        bool // run without -r although the backend has to find it (the file is a used include)
+	FixedOnly  bool // only on the fixed three-file program (relies on its include being used)
 }
 
 type Case struct {
@@ -445,6 +447,36 @@ func catalogue() []Edit {
 		f.Consts = append(f.Consts, &GConst{Name: "ZZK", T: base("i32"), Value: pre + "." + k})
 		return true
 	})
+	// two readings of one dotted identifier: `zq.b.c` = constant c of include "zq.b.thrift" = value c of enum b of include "zq.thrift"
+	for _, site := range []string{"const", "field_default", "arg_default", "throws_default", "list_elem"} {
+		site := site
+		e := add("ambiguous_const", "dotted_include_file/"+site, func(p *GProg, fi int) bool {
+			f := p.Files[fi]
+			p.Files = append(p.Files,
+				&GFile{Path: "zq.b.thrift", Namespace: "zqb", Consts: []*GConst{{Name: "c", T: base("i32"), Value: "1"}}},
+				&GFile{Path: "zq.thrift", Namespace: "zq", Enums: []*GEnum{{Name: "b", Values: []GEnumVal{{"c", ""}}}}})
+			f.Includes = append(f.Includes, "zq.b.thrift", "zq.thrift")
+			id := "zq.b.c"
+			switch site {
+			case "const":
+				f.Consts = append(f.Consts, &GConst{Name: "ZZK", T: base("i32"), Value: id})
+			case "field_default":
+				f.Structs = append(f.Structs, &GStruct{Kind: "struct", Name: "ZZSt", Fields: []*GField{{ID: 1, Name: "c", T: base("i32"), Default: id}}})
+			case "arg_default":
+				f.Services = append(f.Services, &GService{Name: "ZZSvc", Funcs: []*GFunc{{Name: "zz", Args: []*GField{{ID: 1, Name: "a", T: base("i32"), Default: id}}}}})
+			case "throws_default":
+				x := firstOf(f, "exception")
+				if x == nil {
+					return false
+				}
+				f.Services = append(f.Services, &GService{Name: "ZZSvc", Funcs: []*GFunc{{Name: "zz", Throws: []*GField{{ID: 1, Name: "e", T: ref(x.Name), Default: `{"` + x.Fields[0].Name + `": ` + id + "}"}}}}})
+			case "list_elem":
+				f.Consts = append(f.Consts, &GConst{Name: "ZZK", T: &GType{Kind: "list", V: base("i32")}, Value: "[1, " + id + "]"})
+			}
+			return true
+		})
+		e.GraphEdit = true
+	}
 	// ---- constants of the wrong kind (backend)
 	for _, v := range []string{"string_for_int/const", "string_for_int/field_default", "double_for_int/const", "list_for_int/const",
 		"unknown_field_in_struct_literal/const", "unknown_field_in_struct_literal/field_default", "int_key_in_struct_literal/const",
@@ -487,6 +519,79 @@ func catalogue() []Edit {
 			return true
 		})
 		e.BackendBad = true
+	}
+	// ---- defaults in throws lists and argument lists are typed by the backend through the synthesized
+	// <func>_args / <func>_result structs
+	for _, v := range []string{"unknown_field/throws_default", "int_for_exception/throws_default", "string_for_exception/throws_default",
+		"int_key/throws_default", "wrong_member_type/throws_default", "second_entry/throws_default", "qualified_exception/throws_default",
+		"string_for_int/arg_default", "unknown_field/arg_default", "int_for_exception/throws_of_existing_function",
+		"int_for_exception/throws_of_existing_function_no_r", "string_for_int/arg_of_existing_function_no_r"} {
+		v := v
+		e := add("const_kind_mismatch", v, func(p *GProg, fi int) bool {
+			f := p.Files[fi]
+			x := firstOf(f, "exception")
+			st := firstOf(f, "struct")
+			if x == nil || st == nil {
+				return false
+			}
+			thr := func(fs ...*GField) {
+				f.Services = append(f.Services, &GService{Name: "ZZSvc", Funcs: []*GFunc{{Name: "zz", Throws: fs}}})
+			}
+			arg := func(fs ...*GField) {
+				f.Services = append(f.Services, &GService{Name: "ZZSvc", Funcs: []*GFunc{{Name: "zz", Args: fs}}})
+			}
+			existing := func() *GFunc {
+				for _, s := range f.Services {
+					for _, fn := range s.Funcs {
+						if !fn.Oneway {
+							return fn
+						}
+					}
+				}
+				return nil
+			}
+			switch v {
+			case "unknown_field/throws_default":
+				thr(&GField{ID: 1, Name: "e", T: ref(x.Name), Default: `{"no_such_field": 1}`})
+			case "int_for_exception/throws_default":
+				thr(&GField{ID: 1, Name: "e", T: ref(x.Name), Default: "5"})
+			case "string_for_exception/throws_default":
+				thr(&GField{ID: 1, Name: "e", T: ref(x.Name), Default: `"boom"`})
+			case "int_key/throws_default":
+				thr(&GField{ID: 1, Name: "e", T: ref(x.Name), Default: `{1: "x"}`})
+			case "wrong_member_type/throws_default":
+				thr(&GField{ID: 1, Name: "e", T: ref(x.Name), Default: `{"` + x.Fields[0].Name + `": 5}`}) // msg is a string
+			case "second_entry/throws_default":
+				thr(&GField{ID: 1, Name: "e1", T: ref(x.Name)}, &GField{ID: 2, Name: "e2", T: ref(x.Name), Default: "5"})
+			case "qualified_exception/throws_default":
+				pre, inc := incPrefix(p, f)
+				if inc == nil || firstOf(inc, "exception") == nil {
+					return false
+				}
+				thr(&GField{ID: 1, Name: "e", T: ref(pre + "." + firstOf(inc, "exception").Name), Default: "5"})
+			case "string_for_int/arg_default":
+				arg(&GField{ID: 1, Name: "a", T: base("i32"), Default: `"str"`})
+			case "unknown_field/arg_default":
+				arg(&GField{ID: 1, Name: "a", T: ref(st.Name), Default: `{"no_such_field": 1}`})
+			case "int_for_exception/throws_of_existing_function", "int_for_exception/throws_of_existing_function_no_r":
+				fn := existing()
+				if fn == nil {
+					return false
+				}
+				fn.Throws = append(fn.Throws, &GField{ID: maxID(fn.Throws) + 1, Name: "zz_e", T: ref(x.Name), Default: "5"})
+			case "string_for_int/arg_of_existing_function_no_r":
+				fn := existing()
+				if fn == nil {
+					return false
+				}
+				fn.Args = append(fn.Args, &GField{ID: maxID(fn.Args) + 1, Name: "zz_a", T: base("i64"), Default: `"str"`})
+			}
+			return true
+		})
+		e.BackendBad = true
+		if strings.HasSuffix(v, "_no_r") {
+			e.NoR, e.FixedOnly = true, true
+		}
 	}
 	// ---- union
 	for _, v := range []string{"new_union", "existing_union"} {
@@ -610,6 +715,20 @@ func cmdCatalogue() []cmdEdit {
 		{Variant: "bad_naming_style", TargetsBad: true, Args: func(be, m string) []string { return []string{"-g", be + ":naming_style=bogus", "-o", "out", m} }},
 		{Variant: "bad_template", TargetsBad: true, Args: func(be, m string) []string { return []string{"-g", be + ":template=bogus", "-o", "out", m} }},
 		{Variant: "unknown_plugin", TargetsBad: true, Args: func(be, m string) []string { return []string{"-g", be, "-p", "no_such_plugin_zz", "-o", "out", m} }},
+		{Variant: "second_backend_unknown", TargetsBad: true, Args: func(be, m string) []string { return []string{"-g", be, "-g", "cobol", "-o", "out", m} }},
+		{Variant: "second_backend_bad_style", TargetsBad: true, Args: func(be, m string) []string {
+			return []string{"-g", be, "-g", be + ":naming_style=bogus", "-o", "out", m}
+		}},
+		{Variant: "second_backend_bad_template", TargetsBad: true, Args: func(be, m string) []string {
+			return []string{"-g", "go", "-g", "fastgo:template=bogus", "-o", "out", m}
+		}},
+		{Variant: "second_backend_bad_bool", TargetsBad: true, Args: func(be, m string) []string {
+			return []string{"-g", be + ":gen_setter", "-g", "go:gen_setter=maybe", "-r", "-o", "out", m}
+		}},
+		{Variant: "two_backends_bad_plugin", TargetsBad: true, Args: func(be, m string) []string {
+			return []string{"-g", "go", "-g", "fastgo", "-p", "no_such_plugin_zz", "-o", "out", m}
+		}},
+		{Variant: "two_backends_valid", Valid: true, Args: func(be, m string) []string { return []string{"-g", "go", "-g", "fastgo", "-o", "out", m} }},
 		{Variant: "valid_with_options", Valid: true, Args: func(be, m string) []string {
 			return []string{"-g", be + ":gen_setter,naming_style=golint", "-r", "-o", "out", m}
 		}},
@@ -655,7 +774,7 @@ func buildCases(baseName string, mk func() *GProg, r *vl.Rng, exhaustive bool, p
 	}
 	try := func(e Edit, pos string) *Case {
 		fi, ok := tg[pos]
-		if !ok {
+		if !ok || (e.FixedOnly && !exhaustive) {
 			return nil
 		}
 		p := mk()
@@ -665,6 +784,9 @@ func buildCases(baseName string, mk func() *GProg, r *vl.Rng, exhaustive bool, p
 		c := &Case{Base: baseName, Rule: e.Rule, Variant: e.Variant, Pos: pos, Prog: p, BaseProg: b, SyntaxBad: e.SyntaxBad, BackendBad: e.BackendBad}
 		// the backend only types the constants of files it builds a scope for
 		c.Recursive = e.BackendBad && pos != "main" || (!e.BackendBad && !exhaustive && r.Chance(30))
+		if e.NoR {
+			c.Recursive = false
+		}
 		return c
 	}
 	if exhaustive {
@@ -703,6 +825,65 @@ func buildCases(baseName string, mk func() *GProg, r *vl.Rng, exhaustive bool, p
 
 // regressionCases: the inputs on which the property failed before the repairs in /repo
 // (69b2ce1, 0b3502e, 58e7614, 4fd3a1e, a421c57, 035596c).  They run first.
+// aimedCases: fixed inputs for shapes a sampled edit may miss (run on every seed, right after the regression items)
+func aimedCases() []*Case {
+	type fl struct {
+		path  string
+		lines []string
+	}
+	mk := func(name string, recursive, backendBad bool, files ...fl) *Case {
+		p := &GProg{}
+		b := &GProg{}
+		for _, f := range files {
+			p.Files = append(p.Files, &GFile{Path: f.path, Raw: f.lines})
+			b.Files = append(b.Files, &GFile{Path: f.path})
+		}
+		return &Case{Base: "regression", Rule: "aimed_" + name, Variant: name, Pos: "main", Prog: p, BaseProg: b, Recursive: recursive, BackendBad: backendBad}
+	}
+	ab := fl{"a.b.thrift", []string{"const i32 c = 1"}}
+	a := fl{"a.thrift", []string{"enum b { c }"}}
+	inc := []string{`include "a.b.thrift"`, `include "a.thrift"`}
+	with := func(lines ...string) []string { return append(append([]string{}, inc...), lines...) }
+	ex := "exception E { 1: string m, 2: i32 code }"
+	var out []*Case
+	for _, v := range []struct {
+		n string
+		l string
+	}{{"const", "const i32 x = a.b.c"}, {"field_default", "struct S { 1: i32 f = a.b.c }"}, {"arg_default", "service S { void f(1: i32 p = a.b.c) }"},
+		{"list_elem", "const list<i32> l = [1, a.b.c]"}, {"map_value", `const map<string,i32> mm = {"k": a.b.c}`}} {
+		out = append(out, mk("ambiguous_dotted_include/"+v.n, false, false, fl{"main.thrift", with(v.l)}, ab, a))
+	}
+	for _, r := range []bool{false, true} {
+		n := "ambiguous_dotted_include/in_included_file"
+		if r {
+			n += "_r"
+		}
+		out = append(out, mk(n, r, false, fl{"main.thrift", []string{`include "u.thrift"`, "struct M { 1: i32 a }"}},
+			fl{"u.thrift", with("const i32 x = a.b.c")}, ab, a))
+	}
+	for _, v := range []struct {
+		n string
+		l string
+	}{{"unknown_field", `service S { void f() throws (1: E e = {"nosuch": 1}) }`}, {"int_for_exception", "service S { void f() throws (1: E e = 5) }"},
+		{"string_for_exception", `service S { void f() throws (1: E e = "boom") }`}, {"int_key", `service S { void f() throws (1: E e = {1: "x"}) }`},
+		{"wrong_member_type", `service S { void f() throws (1: E e = {"code": "abc"}) }`},
+		{"second_entry", `service S { i32 f(1: i32 a) throws (1: E e1, 2: E e2 = {"m": 7}) }`},
+		{"string_for_int_argument", `service S { void f(1: i32 a = "s") }`}, {"unknown_field_in_argument", `struct A { 1: i32 x }` + "\n" + `service S { void f(1: A a = {"nosuch": 1}) }`}} {
+		out = append(out, mk("throws_or_argument_default/"+v.n, false, true, fl{"main.thrift", append([]string{ex}, strings.Split(v.l, "\n")...)}))
+	}
+	for _, r := range []bool{false, true} {
+		n := "throws_or_argument_default/base_service_in_included_file"
+		if r {
+			n += "_r"
+		}
+		out = append(out, mk(n, r, true, fl{"main.thrift", []string{`include "bs.thrift"`, "service S extends bs.B { void g(1: i32 a) }"}},
+			fl{"bs.thrift", []string{ex, "service B { void f() throws (1: E e = 5) }"}}))
+		out = append(out, mk(n+"_qualified_type", r, true, fl{"main.thrift", []string{`include "bs.thrift"`, "service S { void g() throws (1: bs.E e = 5) }"}},
+			fl{"bs.thrift", []string{ex}}))
+	}
+	return out
+}
+
 func regressionCases() []*Case {
 	mk := func(name string, valid, backendBad bool, lines ...string) *Case {
 		p := &GProg{Files: []*GFile{{Path: "main.thrift", Raw: lines}}}
